@@ -121,7 +121,13 @@ func ToSubs(d vtt.Doc, variant int) *astisub.Subtitles {
 	for _, b := range d.Styles {
 		css = append(css, b...)
 	}
-	if len(css) > 0 {
+	if variant == 3 && len(d.Styles) > 1 {
+		// one Style entry per STYLE block (ids in block order): a list assembled by hand or merged from several files
+		for k, b := range d.Styles {
+			id := fmt.Sprintf("css-%02d", k)
+			s.Styles[id] = &astisub.Style{ID: id, InlineStyle: &astisub.StyleAttributes{WebVTTStyles: append([]string(nil), b...)}}
+		}
+	} else if len(css) > 0 {
 		s.Styles[defaultStyleID] = &astisub.Style{ID: defaultStyleID, InlineStyle: &astisub.StyleAttributes{WebVTTStyles: css}}
 	}
 	for _, r := range d.Regions {
